@@ -10,7 +10,7 @@
 (*                      impure after this history, and which slot is stale *)
 (* StaleIffImpure (the model's explanation is exact) is checked in both.   *)
 (*                                                                         *)
-(* Three families of fonts, each with its own universe of calls:           *)
+(* Six families of fonts, each with its own universe of calls:             *)
 (*   intact  : the plain font; glyph mapping, shaping under scripts, masks *)
 (*             and tuples, images and image filters, advances, names       *)
 (*   dmg     : a font one (or several) of whose lazily loaded tables is    *)
@@ -24,15 +24,41 @@
 (*             single feature and with all of them, as a mask and as a     *)
 (*             custom feature list, under the default language system and  *)
 (*             under a second one that has only some of the features       *)
-(* The layout of the collide fonts is part of the CASE: the harness builds *)
-(* the bytes from it.                                                      *)
+(*   img     : a font that carries two, three (or four) embedded-image     *)
+(*             tables which all hold an image of the glyph asked for; the  *)
+(*             histories are ALL sequences of up to MaxImgFilters image    *)
+(*             filters (narrowing, widening, disjoint, the same again),    *)
+(*             with or without an image query before the first and after   *)
+(*             each filter: here the path is part of the VIEW, because     *)
+(*             the model forgets the selection at every change of filter   *)
+(*             and so merges histories an implementation may distinguish   *)
+(*   fill    : one long history that fills a keyed cache far beyond any    *)
+(*             plausible capacity - `keys`: shaping under hundreds of      *)
+(*             distinct (script, language, feature mask) keys, every       *)
+(*             second one through the fraction path that holds two indices *)
+(*             of cached_lookups at once; `complex`: hundreds of languages *)
+(*             under a script with a shaper of its own (one key per        *)
+(*             shaping stage); `lookups`: hundreds of lookups, each with a *)
+(*             Coverage of its own, in GSUB and GPOS.  A CASE is printed   *)
+(*             at the checkpoints only; its fan probes old and new keys    *)
+(*   scopes  : a ReadCache read through scopes derived by every route      *)
+(*             (offset, offset_length, ReadCtxt::read_scope, nested)       *)
+(* The layout of the collide and fill fonts is part of the CASE: the       *)
+(* harness builds the bytes from it.                                       *)
 (***************************************************************************)
 EXTENDS FontCache, Json, SequencesExt
 
 CONSTANTS MaxDepth,        \* depth of histories on the intact font
           MaxDepthDmg,     \* ... on a font with a damaged table
           MaxDepthCollide, \* ... on a font with colliding cache keys
-          Families         \* which families are explored
+          Families,        \* which families are explored
+          ImgCounts,       \* img: how many image tables the fonts have (a set of numbers)
+          ImgFilterMode,   \* img: "own" = filters are the subsets of the font's tables, "all" = all 16 filters
+          MaxImgFilters,   \* img: number of set_embedded_image_filter calls in a history
+          FillKeys,        \* fill: length of the history of distinct (script, language, mask) keys
+          FillLangs,       \* fill: ... of distinct languages under a complex script
+          FillLookups,     \* fill: ... of distinct lookups (= number of lookups of the font's GSUB and GPOS)
+          MaxDepthScopes
 
 VARIABLES st, path
 vars == <<st, path>>
@@ -41,14 +67,15 @@ Chars  == {"A", "DC", "EM"}
 Pres   == {"Req", "NotReq"}
 VSs    == {"none", "VS15", "VS16"}
 Tuples == {"none", "tA", "tB"}
-Filters == {"default", "empty", "bw"}
+Filters == {DefaultFilter, 0, EBDT}
 TextDC == <<[ch |-> "A", vs |-> "none"], [ch |-> "DC", vs |-> "none"]>>
 TextVS == <<[ch |-> "DC", vs |-> "VS16"], [ch |-> "A", vs |-> "none"]>>
 
 \* ---- fonts ----------------------------------------------------------------
 Kinds       == {"gsub", "gpos", "gdef", "morx", "kern", "vhea", "vmtx", "images"}
 TableKinds  == {"gsub", "gpos", "gdef", "morx", "kern", "vhea"}     \* kinds with a public accessor
-DmgFont(ks) == [fam |-> "dmg", damaged |-> ks, lookups |-> <<>>]
+\* the image table of a damaged font is one the default filter selects
+DmgFont(ks) == [fam |-> "dmg", damaged |-> ks, lookups |-> <<>>, imgs |-> DefaultFilter, sub |-> ""]
 DmgFonts    == {DmgFont(<<k>>) : k \in Kinds}
                \cup {DmgFont(<<"gsub", "gpos">>), DmgFont(<<"gsub", "gpos", "gdef", "morx", "kern">>),
                      DmgFont(<<"vhea", "vmtx">>)}
@@ -59,9 +86,10 @@ DmgFonts    == {DmgFont(<<k>>) : k \in Kinds}
 \* the features of the second language system ("l2"; "l1" is the default one, which has them all)
 L2Feats == {"dlig", "rlig", "smcp"}
 Obj(kind, sub, rel, content) == [kind |-> kind, pos |-> sub + rel, rel |-> rel, content |-> content]
-Single(tbl, idx, feat, sub, content) ==
-  [tbl |-> tbl, idx |-> idx, feat |-> feat, typ |-> "single", ext |-> sub >= 65536, sub |-> sub, l2 |-> feat \in L2Feats,
+SingleL(tbl, idx, feat, sub, content, l2) ==
+  [tbl |-> tbl, idx |-> idx, feat |-> feat, typ |-> "single", ext |-> sub >= 65536, sub |-> sub, l2 |-> l2,
    objs |-> <<Obj("cov", sub, 8, content)>>, nested |-> <<>>]
+Single(tbl, idx, feat, sub, content) == SingleL(tbl, idx, feat, sub, content, feat \in L2Feats)
 Class(tbl, idx, feat, sub, content) ==
   [tbl |-> tbl, idx |-> idx, feat |-> feat, typ |-> "class", ext |-> sub >= 65536, sub |-> sub, l2 |-> feat \in L2Feats,
    objs |-> <<Obj("cov", sub, 32, IF tbl = "GSUB" THEN "EFG" ELSE "X"), Obj("cls", sub, 64, content)>>,
@@ -77,17 +105,51 @@ Layout(tbl) ==
     Single(tbl, 256, "smcp", 3840 + 16, "I")>>     \* lookup index 256: same u8 as lookup 0
 CollideFont(tbls) == [fam |-> "collide", damaged |-> <<>>,
                       lookups |-> (IF "GSUB" \in tbls THEN Layout("GSUB") ELSE <<>>)
-                                  \o (IF "GPOS" \in tbls THEN Layout("GPOS") ELSE <<>>)]
+                                  \o (IF "GPOS" \in tbls THEN Layout("GPOS") ELSE <<>>),
+                      imgs |-> 0, sub |-> ""]
 CollideFonts == {CollideFont({"GSUB"}), CollideFont({"GPOS"}), CollideFont({"GSUB", "GPOS"})}
+
+\* fonts with several image tables
+PopCount(x) == (x % 2) + ((x \div 2) % 2) + ((x \div 4) % 2) + ((x \div 8) % 2)
+ImgFont(m)  == [fam |-> "img", damaged |-> <<>>, lookups |-> <<>>, imgs |-> m, sub |-> ""]
+ImgFonts    == {ImgFont(m) : m \in {x \in 1 .. 15 : PopCount(x) \in ImgCounts}}
+
+\* fonts of the fill family
+\* keys: one single substitution per feature (the first three are the ones gsub_apply_default / build_lookups_default
+\* treat specially: frac = two lists, vert = VRT2_OR_VERT fallback, rvrn = taken out of the mask); both language
+\* systems have every feature
+KeyFeats == <<"frac", "vert", "rvrn", "liga", "ccmp", "calt", "clig", "rlig", "locl", "smcp", "onum", "lnum", "tnum", "zero">>
+KeyContent == <<"12", "A", "B", "C", "D", "E", "F", "G", "H", "I", "J", "K", "L", "M">>
+KeysLayout == [j \in 1 .. Len(KeyFeats) |-> SingleL("GSUB", j - 1, KeyFeats[j], 2560 + 32 * (j - 1), KeyContent[j], TRUE)]
+\* lookups: lookup i - 1 belongs to the feature Tag(i) and covers one upper-case and one lower-case letter: the
+\* pair is different for every i < 676
+Digit == <<"0", "1", "2", "3", "4", "5", "6", "7", "8", "9">>
+Tag(i) == "L" \o Digit[((i \div 100) % 10) + 1] \o Digit[((i \div 10) % 10) + 1] \o Digit[(i % 10) + 1]
+Upper == <<"A", "B", "C", "D", "E", "F", "G", "H", "I", "J", "K", "L", "M", "N", "O", "P", "Q", "R", "S", "T", "U", "V", "W", "X", "Y", "Z">>
+Lower == <<"a", "b", "c", "d", "e", "f", "g", "h", "i", "j", "k", "l", "m", "n", "o", "p", "q", "r", "s", "t", "u", "v", "w", "x", "y", "z">>
+PairOf(i) == Upper[(i % 26) + 1] \o Lower[((i \div 26) % 26) + 1]
+ManyLayout(tbl) == [i \in 1 .. FillLookups |-> SingleL(tbl, i - 1, Tag(i), 20480 + 32 * (i - 1), PairOf(i), FALSE)]
+FillFont(kind) == [fam |-> "fill", damaged |-> <<>>,
+                   lookups |-> CASE kind = "keys"    -> KeysLayout
+                                 [] kind = "lookups" -> ManyLayout("GSUB") \o ManyLayout("GPOS")
+                                 [] OTHER            -> <<>>,
+                   imgs |-> 0, sub |-> kind]
+FillFonts == {FillFont("keys"), FillFont("complex"), FillFont("lookups")}
+
+ScopesFont == [fam |-> "scopes", damaged |-> <<>>, lookups |-> <<>>, imgs |-> 0, sub |-> ""]
 
 Fonts == (IF "intact" \in Families THEN {PlainFont} ELSE {})
          \cup (IF "dmg" \in Families THEN DmgFonts ELSE {})
          \cup (IF "collide" \in Families THEN CollideFonts ELSE {})
+         \cup (IF "img" \in Families THEN ImgFonts ELSE {})
+         \cup (IF "fill" \in Families THEN FillFonts ELSE {})
+         \cup (IF "scopes" \in Families THEN {ScopesFont} ELSE {})
 
 \* ---- calls ----------------------------------------------------------------
-ShapeCallL(s, l, m, t, custom, feats) ==
+ShapeCallX(s, l, m, t, custom, feats, frac, m0) ==
   [op |-> "Shape", text |-> "w1", script |-> s, lang |-> l, mask |-> m, tuple |-> t, kern |-> TRUE,
-   custom |-> custom, feats |-> feats]
+   custom |-> custom, feats |-> feats, frac |-> frac, mask0 |-> m0]
+ShapeCallL(s, l, m, t, custom, feats) == ShapeCallX(s, l, m, t, custom, feats, FALSE, m)
 ShapeCall(s, m, t, custom, feats) == ShapeCallL(s, "l1", m, t, custom, feats)
 TableCalls == {[op |-> "Table", k |-> k] : k \in TableKinds}
 
@@ -104,7 +166,7 @@ DmgCalls ==
   \cup {ShapeCall("s1", "m1", "none", FALSE, <<>>), ShapeCall("s1", "m1", "none", TRUE, <<>>)}
   \cup {[op |-> "Image", g |-> 1], [op |-> "HasImages"], [op |-> "VAdvance", g |-> 1],
         [op |-> "LookupGlyph", ch |-> "EM", pres |-> "Req", vs |-> "none"]}
-  \cup {[op |-> "SetFilter", f |-> f] : f \in {"default", "empty"}}
+  \cup {[op |-> "SetFilter", f |-> f] : f \in {DefaultFilter, 0}}
 
 CollideFeats == {"liga", "dlig", "hlig", "calt", "rlig", "clig", "smcp"}
 AllFeats     == <<"calt", "clig", "dlig", "hlig", "liga", "rlig", "smcp">>
@@ -115,30 +177,108 @@ CollideCalls ==
   \cup {ShapeCallL("s1", "l2", f, "none", cu, IF f \in L2Feats THEN <<f>> ELSE <<>>) : f \in {"liga", "dlig"}, cu \in BOOLEAN}
   \cup {ShapeCallL("s1", "l2", "all", "none", cu, SelectSeq(AllFeats, LAMBDA f : f \in L2Feats)) : cu \in BOOLEAN}
 
+\* img: the image queries (all of them go through Font::embedded_images)
+ImgQueries == <<[op |-> "LookupGlyph", ch |-> "EM", pres |-> "Req", vs |-> "none"],
+                [op |-> "Image", g |-> 1], [op |-> "HasImages"]>>
+ImgFiltersOf(font) == IF ImgFilterMode = "own" THEN {f \in 0 .. 15 : FilterWithin(f, font.imgs)} ELSE 0 .. 15
+NumFilters(p) == Len(SelectSeq(p, LAMBDA c : c.op = "SetFilter"))
+
+\* fill, keys: the i-th key is (script i % 5, language (i \div 5) % 4, mask number (i \div 20) * 8 + i % 8);
+\* bit j - 1 of the mask number says whether KeyFeats[j] is in the mask, so the key is different for every i, every
+\* second one has frac (its partner key, the mask without frac, is no other i's key), and vert / rvrn come and go
+KeyA(i) == (i % 5) + 1
+KeyB(i) == (i \div 5) % 4
+KeyC(i) == ((i \div 20) * 8) + (i % 8)
+Pow2(j) == <<1, 2, 4, 8, 16, 32, 64, 128, 256, 512, 1024, 2048, 4096, 8192>>[j + 1]
+FeatsOfMask(c) == SelectSeq(KeyFeats, LAMBDA f : \E j \in 1 .. Len(KeyFeats) : KeyFeats[j] = f /\ Bit(c, Pow2(j - 1)))
+KeyCall(i, custom) ==
+  LET c == KeyC(i) IN
+  ShapeCallX("s" \o ToString(KeyA(i)), "l" \o ToString(KeyB(i)), "m" \o ToString(c), "none", custom, FeatsOfMask(c),
+             ~custom /\ (c % 2) = 1, IF custom THEN "m" \o ToString(c) ELSE "m" \o ToString(c - (c % 2)))
+\* fill, complex: the i-th call shapes under the font's own (complex) script with a language nobody has heard of
+LangCall(s, b, m) == ShapeCallL(s, "l" \o ToString(b), m, "none", FALSE, <<>>)
+\* fill, lookups: the i-th call applies the i-th lookup of GSUB and of GPOS through a custom feature list
+TagCall(tags) == ShapeCallX("s1", "l1", IF Len(tags) = 1 THEN tags[1] ELSE "all", "none", TRUE, tags, FALSE,
+                            IF Len(tags) = 1 THEN tags[1] ELSE "all")
+AllTags == [i \in 1 .. FillLookups |-> Tag(i)]
+\* the features of the 65 lookups around the n-th: one call that holds that many parsed lookups at once
+Lo(n) == IF n > 41 THEN n - 40 ELSE 1
+Hi(n) == IF n + 24 < FillLookups THEN n + 24 ELSE FillLookups
+BlockTags(n) == [i \in 1 .. (Hi(n) - Lo(n) + 1) |-> Tag(Lo(n) + i - 1)]
+FillMax(font) == CASE font.sub = "keys" -> FillKeys [] font.sub = "complex" -> FillLangs [] OTHER -> FillLookups
+FillCall(font, i) == CASE font.sub = "keys"    -> KeyCall(i, FALSE)
+                       [] font.sub = "complex" -> LangCall("s1", i + 3, "m1")
+                       [] OTHER                -> TagCall(<<Tag(i)>>)
+Checkpoints == {16, 31, 32, 33, 48, 62, 63, 64, 65, 66, 96, 100, 127, 128, 129, 130, 150, 200, 255, 256, 257, 258, 300,
+                400, 511, 512, 513, 600, 800, 1000, 1023, 1024, 1025, 1500, 2000}
+IsCheckpoint(font, n) == n \in Checkpoints \/ n = FillMax(font)
+\* probes after n calls of the fill: keys / languages / lookups from the beginning and the end of the history and
+\* ones the font object has not seen yet
+FillFan(font, n) ==
+  CASE font.sub = "keys" ->
+         {KeyCall(i, FALSE) : i \in {1, 2, n - 1, n, n + 1, n + 2, n + 3, n + 4} \cap (1 .. n + 4)}
+         \cup {KeyCall(i, TRUE) : i \in {1, n + 1}} \cup {[op |-> "Table", k |-> "gsub"]}
+    [] font.sub = "complex" ->
+         {LangCall(s, b, m) : s \in {"s1", "s2"}, b \in {1, 4, n + 3, n + 4, n + 5}, m \in {"m1", "m2"}}
+         \cup {[op |-> "MapGlyphs", text |-> TextDC, script |-> "s1", pres |-> "NotReq"]}
+    [] OTHER ->
+         {TagCall(<<Tag(i)>>) : i \in {1, 2, n, n + 1, FillLookups} \cap (1 .. FillLookups)}
+         \cup {TagCall(BlockTags(n)), [op |-> "Table", k |-> "gsub"], [op |-> "Table", k |-> "gpos"]}
+         \cup (IF n = FillLookups THEN {TagCall(AllTags)} ELSE {})
+
+\* scopes: Coverage tables at three positions (two of them congruent mod 2^16 and 2^8) and a ClassDef, read through a
+\* ReadCache by way of every route that derives a scope
+ScopeObjs   == {Obj("cov", 0, 64, "A"), Obj("cov", 0, 320, "B"), Obj("cov", 0, 65600, "C"), Obj("cls", 0, 128, "E")}
+ScopeRoutes == {"offset", "offset_length", "read_scope", "nested"}
+ScopeCalls  == {[op |-> "ReadCached", route |-> r, obj |-> o] : r \in ScopeRoutes, o \in ScopeObjs}
+
 \* calls that extend a history / calls probed after it
 PathCalls(font) == CASE font.fam = "intact"  -> IntactCalls
                      [] font.fam = "dmg"     -> DmgCalls
                      [] font.fam = "collide" -> CollideCalls
+                     [] font.fam = "scopes"  -> ScopeCalls
 FanCalls(font)  == CASE font.fam = "intact"  -> IntactCalls \cup TableCalls
                      [] font.fam = "dmg"     -> DmgCalls \cup {[op |-> "HAdvance", g |-> 1]}
                      [] font.fam = "collide" -> CollideCalls \cup {[op |-> "Table", k |-> "gsub"], [op |-> "Table", k |-> "gpos"]}
+                     [] font.fam = "img"     -> Range(ImgQueries)
+                     [] font.fam = "fill"    -> FillFan(font, Len(path))
+                     [] font.fam = "scopes"  -> ScopeCalls
 DepthOf(font)   == CASE font.fam = "intact"  -> MaxDepth
                      [] font.fam = "dmg"     -> MaxDepthDmg
                      [] font.fam = "collide" -> MaxDepthCollide
+                     [] font.fam = "scopes"  -> MaxDepthScopes
 
 Init == /\ \E f \in Fonts : st = InitStateOf(f)
         /\ path = <<>>
-Next == /\ Len(path) < DepthOf(st.font)
-        /\ \E c \in PathCalls(st.font) : /\ st' = Step(st, c).st
-                                         /\ st' # st
-                                         /\ path' = Append(path, c)
+\* the families whose histories are the shortest ones to each cache state
+NextShortest == /\ st.font.fam \in {"intact", "dmg", "collide", "scopes"}
+                /\ Len(path) < DepthOf(st.font)
+                /\ \E c \in PathCalls(st.font) : /\ st' = Step(st, c).st
+                                                 /\ st' # st
+                                                 /\ path' = Append(path, c)
+\* img: every sequence  [query] (filter [query])*  with at most MaxImgFilters filters; the query that may
+\* follow the k-th filter is ImgQueries[k + 1] (so each kind of query is used, without multiplying the histories)
+NextImg == /\ st.font.fam = "img"
+           /\ NumFilters(path) < MaxImgFilters
+           /\ \/ \E f \in ImgFiltersOf(st.font) :
+                   LET c == [op |-> "SetFilter", f |-> f] IN st' = Step(st, c).st /\ path' = Append(path, c)
+              \/ /\ IF path = <<>> THEN TRUE ELSE path[Len(path)].op = "SetFilter"
+                 /\ LET c == ImgQueries[(NumFilters(path) % 3) + 1] IN st' = Step(st, c).st /\ path' = Append(path, c)
+\* fill: one long history
+NextFill == /\ st.font.fam = "fill"
+            /\ Len(path) < FillMax(st.font)
+            /\ LET c == FillCall(st.font, Len(path) + 1) IN st' = Step(st, c).st /\ path' = Append(path, c)
+Next == NextShortest \/ NextImg \/ NextFill
 Spec == Init /\ [][Next]_vars
-View == <<st, Len(path)>>
+View == <<st, IF st.font.fam \in {"img", "scopes"} THEN path ELSE <<Len(path)>> >>
 
-AllPure      == \A c \in FanCalls(st.font) : PureStep(st, c)
-ModelExact   == \A c \in FanCalls(st.font) : StaleIffImpure(st, c)
+\* fill: the fan is probed (and printed) at the checkpoints only
+Probed       == st.font.fam # "fill" \/ IsCheckpoint(st.font, Len(path))
+AllPure      == Probed => \A c \in FanCalls(st.font) : PureStep(st, c)
+ModelExact   == Probed => \A c \in FanCalls(st.font) : StaleIffImpure(st, c)
 
 Fan == {[call |-> c, impure |-> ~PureStep(st, c),
          causes |-> CausesSeq(Step(st, c).stale)] : c \in FanCalls(st.font)}
-EmitCase == PrintT(<<"CASE", ToJson([font |-> st.font, path |-> path, fan |-> SetToSeq(Fan)])>>)
+EmitCase == IF ~Probed THEN TRUE
+            ELSE PrintT(<<"CASE", ToJson([font |-> st.font, path |-> path, fan |-> SetToSeq(Fan)])>>)
 =============================================================================
